@@ -10,6 +10,12 @@ CHECKS = {
  "C02": ("exploration", "runtime monitoring: real key generations in the simulator, consistent-key-material oracle with reference Lagrange over every (t+1)-subset",
          "Seeded exploration over (protocol, n, t, identifier alphabet, scheduler); the oracle compares tables across parties, own share vs own entry, and reconstructs from every enumerated (t+1)-subset of secrets and of table entries; a t-subset must not reconstruct.",
          "Trusts verif/ref Lagrange and secp256k1; CMP primes from the pool (hook H1).", "5/C02"),
+ "C18": ("exploration", "runtime monitoring with verif yield hooks: pairwise gates and seeded yield vectors at the pool's synchronisation points, hook-free stress, goroutine-dump conservation oracle",
+         "Explores interleavings of caller and workers by holding a worker point until a caller point happened (and the reverse) for every pair and small configurations, by seeded yield vectors, and by stress with instant tasks; oracles are exact results, exactly-once evaluation, genuine distinct Search results, return (deadlock decided from a goroutine dump), and no worker parked in chan send after a call returned.",
+         "Trusts runtime.Stack goroutine states; hooks only delay.", "5/C18"),
+ "C19": ("exploration", "runtime monitoring: adversarially related transcript pairs judged against an independent canonical encoding; commitment alteration lattice",
+         "Seeded generation of typed item sequences and related pairs (boundary/domain shifts, split/merge, retyping, permutation, framing pasted as bytes crafted against weakened framings); a digest collision between sequences whose canonical encodings differ is the violation; commitments must refuse every altered tuple/decommitment.",
+         "Abstract identity of items computed by harness code; blake3 collision resistance.", "5/C19"),
  "C16": ("exploration", "differential runtime monitoring against independent big-integer ECDSA / BIP-340 / recovery references",
          "Seeded differential exploration: every stand-alone primitive is run on valid signatures and a lattice of single-field perturbations and its verdict compared with an independent reference; held on what was observed.",
          "Trusts verif/ref (math/big, crypto/sha256), itself checked against BIP-340 vectors and a BIP-32 vector at start-up.", "5/C16"),
